@@ -523,7 +523,12 @@ func mkKF() *Term { return intern(&Term{Op: "KF", Sort: SArrB}) }
 // ---------- uninterpreted functions ----------
 
 // mkV is the little-endian base-B value of words m[lo..hi).
-func mkV(m, lo, hi *Term) *Term {
+func mkV(m, lo, hi *Term) *Term { return mkVb("V", specB10_19, m, lo, hi) }
+
+// mkV2 is the same in base 2^64 (the binary kernels).
+func mkV2(m, lo, hi *Term) *Term { return mkVb("V2", two64, m, lo, hi) }
+
+func mkVb(op string, base *big.Int, m, lo, hi *Term) *Term {
 	if eqTerm(lo, hi) {
 		return mkI(0)
 	}
@@ -537,7 +542,7 @@ func mkV(m, lo, hi *Term) *Term {
 				ok = false
 				break
 			}
-			acc.Mul(acc, specB10_19)
+			acc.Mul(acc, base)
 			acc.Add(acc, w.Val)
 		}
 		if ok {
@@ -545,19 +550,25 @@ func mkV(m, lo, hi *Term) *Term {
 		}
 	}
 	if m.Op == "ite" {
-		return mkIte(m.Args[0], mkV(m.Args[1], lo, hi), mkV(m.Args[2], lo, hi))
+		return mkIte(m.Args[0], mkVb(op, base, m.Args[1], lo, hi), mkVb(op, base, m.Args[2], lo, hi))
 	}
-	return app("V", SInt, m, lo, hi)
+	return app(op, SInt, m, lo, hi)
 }
 
 var specB10_19, _ = new(big.Int).SetString("10000000000000000000", 10)
 
 func mkP(k *Term) *Term {
 	if k.isInt() && k.Val.Sign() >= 0 && k.Val.Cmp(big.NewInt(64)) <= 0 {
-		b, _ := new(big.Int).SetString("10000000000000000000", 10)
-		return mkInt(new(big.Int).Exp(b, k.Val, nil))
+		return mkInt(new(big.Int).Exp(specB10_19, k.Val, nil))
 	}
 	return app("P", SInt, k)
+}
+
+func mkP2(k *Term) *Term {
+	if k.isInt() && k.Val.Sign() >= 0 && k.Val.Cmp(big.NewInt(64)) <= 0 {
+		return mkInt(new(big.Int).Exp(two64, k.Val, nil))
+	}
+	return app("P2", SInt, k)
 }
 
 var bigTen = big.NewInt(10)
@@ -724,6 +735,10 @@ func reapply(op string, s Sort, a []*Term) *Term {
 		return mkV(a[0], a[1], a[2])
 	case "P":
 		return mkP(a[0])
+	case "V2":
+		return mkV2(a[0], a[1], a[2])
+	case "P2":
+		return mkP2(a[0])
 	case "p10":
 		return mkP10(a[0])
 	}
